@@ -343,4 +343,9 @@ VARIANTS = [
     V('C20', 'B', 'sys.path entry compared with the Path of the project', PRJ, "            if complete or p != str(self._path)", "            if complete or p != self._path", 'C20.f'),
     V('C20', 'S', 'project path converted once', PRJ, "        sys_path = [\n            p for p in self._get_sys_path(inference_state)", "        own = str(self._path)\n        sys_path = [\n            p for p in self._get_sys_path(inference_state)"),
     V('C01', 'B', 'dotted name of a stub used without a None test', IMP, "            python_file_io = folder_io.get_file_io(path.stem + '.py')", "            python_file_io = folder_io.get_file_io(import_names[-1] + '.py')", 'C01.k'),
+    V('C03', 'B', 'header rule not applied to lambdas in create_context', CTX, "        if scope_node.type in ('funcdef', 'lambdef', 'classdef'):\n            colon", "        if scope_node.type in ('funcdef', 'classdef'):\n            colon", 'C03.g'),
+    V('C03', 'B', 'iterable of a comprehension taken as the last child', CTX, "                iterable = scope_node.children[scope_node.children.index('in') + 1]", "                iterable = scope_node.children[-1]", 'C03.i'),
+    V('C01', 'B', 'yield ancestors searched without lambdef', 'jedi/inference/value/function.py', "search_ancestor('for_stmt', 'funcdef', 'lambdef',", "search_ancestor('for_stmt', 'funcdef',", 'C01.g'),
+    V('C01', 'B', 'extract indices bound only inside the loops', 'jedi/api/refactoring/extract.py', "        start_index = 0\n        end_index = len(nodes) - 1\n", "", 'C01.l'),
+    V('C01', 'S', 'extract indices initialised in one statement', 'jedi/api/refactoring/extract.py', "        start_index = 0\n        end_index = len(nodes) - 1\n", "        start_index, end_index = 0, len(nodes) - 1\n"),
 ]
